@@ -46,11 +46,13 @@ def battery(ctx, pid):
         m = re.match(r"^(\S+)\s+(OK|MISSED|INVALID|STALE|FALSE-ALARM)\b", l)
         if m:
             rows.append((m.group(1), m.group(2)))
-    det = sum(1 for i, s in rows if s == "OK" and not i.startswith("ctl-"))
-    ctl = sum(1 for i, s in rows if s == "OK" and i.startswith("ctl-"))
+    is_ctl = lambda i: i.startswith("ctl-") or i.startswith("control-")
+    det = sum(1 for i, s in rows if s == "OK" and not is_ctl(i))
+    ctl = sum(1 for i, s in rows if s == "OK" and is_ctl(i))
     stale = [i for i, s in rows if s in ("STALE", "INVALID")]
     bad = [(i, s) for i, s in rows if s in ("MISSED", "FALSE-ALARM")]
     ctx.extra["self_test_battery"] = {"entries": len(rows), "seeded_breakages_detected": det, "controls_silent": ctl,
                                       "stale_or_invalid_on_this_tree": stale, "failures": bad,
-                                      "note": "each entry breaks one rule instance in a scratch copy of /repo that must still type-check; the check must exit 1 naming that instance"}
+                                      "note": "each entry breaks one rule instance in a scratch copy of /repo that must still type-check; the check must exit 1 naming that instance; "
+                                              "controls (hand-written `ctl-*` and the independently written refactorings `control-rf*`) must stay silent"}
     return bad
